@@ -551,6 +551,48 @@ def run_c20(case):
         meta["violations"].append({"problem": "infer_query traversal left the query's sub-graph"})
     meta["iq"] = (d0q, d1q, sorted(insideq))
     meta["ids"] = kb.all_ids()
+    # ---- variant 5 (implementation only): a query armed a SECOND time after its facts were revised must answer for the
+    # revised facts -- exactly what a freshly built model with the final facts answers (the query's sub-graph consists of the
+    # query and its atoms, so nothing else can differ)
+    kb5 = impl.PropKB(case["kb"])
+    kb5.add_roots()
+    cand = [i for i in kb5.order if type(kb5.obj[i]).__name__ in ("And", "Or", "Implies") and kb5.obj[i].operands
+            and all(type(o).__name__ == "Proposition" for o in kb5.obj[i].operands)]
+    if cand:
+        r5 = random.Random(case.get("data_seed", case.get("seed", 0)) + 5)
+        q5 = r5.choice(cand)
+        atoms = sorted({kb5.idof[id(o)] for o in kb5.obj[q5].operands})
+        first = {a: float(r5.choice([0, 1])) for a in atoms}
+        final = dict(first)
+        flip = r5.choice(atoms)
+        final[flip] = 1.0 - final[flip]
+
+        def answer(kb):
+            return {i: [q(x) for x in impl.bounds_of(kb.obj[i])] for i in [q5] + atoms}
+
+        kb5.model.set_query(kb5.obj[q5])
+        for a, v in first.items():
+            kb5.model.add_data({kb5.obj[a]: (v, v)})
+        kb5.model.infer_query(max_steps=200)
+        ans1 = answer(kb5)
+        for a, v in final.items():
+            kb5.model.add_data({kb5.obj[a]: (v, v)})
+        kb5.model.set_query(kb5.obj[q5])
+        kb5.model.infer_query(max_steps=200)
+        again = answer(kb5)
+        kbf = impl.PropKB(case["kb"])
+        kbf.add_roots()
+        for a, v in final.items():
+            kbf.model.add_data({kbf.obj[a]: (v, v)})
+        kbf.model.set_query(kbf.obj[q5])
+        kbf.model.infer_query(max_steps=200)
+        fresh = answer(kbf)
+        meta["info"]["rearmed_query"] = q5
+        if again != fresh:
+            meta["violations"].append({"problem": "a query armed again after its facts were revised does not answer for the revised facts: "
+                                                  "infer_query() differs from a freshly built model holding the final facts",
+                                       "query": q5, "first_facts": first, "final_facts": final, "first_answer": ans1,
+                                       "rearmed_answer": again, "fresh_model_answer": fresh})
     return {"lines": lines, "impl": out, "meta": meta}
 
 
